@@ -35,6 +35,9 @@ ASSIGNMENTS_QUICK = [
     "a(i) = (b(i) + c(i)) * (d(i) + e(i))",
     "a(i) = b(i) - (c(i) - d(i))",
     "a(i) = 2 * b(i)",
+    "a(i) = b(i) + d(i) * (e(i) + f(i) + g(i))",  # five operands: exhausting one factor removes several operands at once
+    "a(i) = (b(i) + c(i)) * (d(i) + e(i) + f(i))",
+    "a(i) = b(i) * c(i) + d(i) * e(i) + f(i)",
     "a(i) = b(i) * 3000000000",  # F16: literal beyond int32
     "a(i) = 2000000000 + 2000000000 + b(i)",  # F16: literal-only subexpression beyond int32
     "a(i) = b(i) * (65536 * 65536)",
